@@ -20,6 +20,9 @@ Decided clauses:
         outside a zero-test of a *process-global* flag; no function stored in the backend's vtable may be unguarded. (A gate keyed
         on the thread-local stream state re-runs the probe, unlocked, on every thread's first use.) One named exception:
         storing the result of getpid() (same value in every thread).
+  R19.7 what sodium_init() sets up is visible to every thread: a thread-local object that is written only by functions that run as
+        part of sodium_init() (all their callers are sodium_init or such functions) but is read by other functions stays
+        uninitialised in every other thread (a thread-local canary: guard bytes of zero, cross-thread sodium_free() aborts).
 NOT decided: absence of races inside libc / the OS; results equal to sequential runs (follows
 from R19.2 for distinct buffers, but is not separately proved).
 """
@@ -248,6 +251,7 @@ def run(ctx, chk):
         w |= set(cg.globals_written_at(f))
     chk.note("non-default randombytes_internal backend (not the default generator the property speaks of) writes: %s" % sorted(w))
     internal_backend_rule(prog, chk, cg)
+    tls_init_rule(prog, chk, cg, init)
     # ---- R19.5 closing the default generator does not re-arm its (unsynchronised) lazy initialiser -------------------------
     # randombytes_sysrandom_stir_if_needed() runs the initialiser whenever stream.initialized == 0, without a lock; that is
     # safe only because the flag is set once inside sodium_init(). randombytes_close() may therefore reset the stream state
@@ -334,3 +338,72 @@ def internal_backend_rule(prog, chk, cg):
                    detail="" if ok else "%s %s without a preceding zero-test of a process-global flag: every thread's first use re-runs "
                    "the entropy-source probe concurrently" % (t.sname, unguarded[t.key]), key="R19.6 %s" % t.sname)
     chk.floor("R19.6", "entry points of the randombytes_internal backend", n, 5)
+
+
+def tls_init_rule(prog, chk, cg, init):
+    """R19.7: no thread-local object is initialised only under sodium_init() and used elsewhere"""
+    from ..model import inst_operands, walk_const
+    callers = {}
+    for k, outs in cg.edges.items():
+        for o in outs:
+            callers.setdefault(o, set()).add(k)
+    fns = {f.key: f for f in prog.functions()}
+    once = {init.key}
+    changed = True
+    while changed:
+        changed = False
+        for k, f in fns.items():
+            if k in once or f.public:
+                continue
+            cs = callers.get(k)
+            if cs and all(c in once for c in cs):
+                once.add(k)
+                changed = True
+    n = 0
+    for m in prog.modules.values():
+        for g in m.globals.values():
+            if g["decl"] or g["const"] or not g["tls"]:
+                continue
+            n += 1
+            writers, readers = set(), set()
+            for f in m.functions.values():
+                if f.decl:
+                    continue
+                for ins in f.insts:
+                    refs = []
+                    for o in inst_operands(ins):
+                        if o[0] == "g" and o[1] == g["name"]:
+                            refs.append(o)
+                        elif o[0] in ("ce", "agg") and any(c[0] == "g" and c[1] == g["name"] for c in walk_const(o)):
+                            refs.append(o)
+                    if not refs:
+                        continue
+                    if ins["op"] == "store" and any(r == ins["ops"][1] for r in refs):
+                        writers.add(f.key)
+                    elif ins["op"] == "call":
+                        from ..callgraph import ext_writes
+                        r0 = prog.resolve_callee(f, ins["callee"])
+                        for k, o in enumerate(ins.get("ops", [])):
+                            if o not in refs:
+                                continue
+                            if r0[0] == "fn":
+                                w = k in cg.writes_params(r0[1])
+                            elif r0[0] == "ext":
+                                nm = r0[1]
+                                if nm.startswith(("llvm.memcpy", "llvm.memmove", "memcpy", "memmove", "llvm.memset", "memset")):
+                                    w = k == 0
+                                else:
+                                    ew = ext_writes(nm)
+                                    w = True if ew is None else k in ew
+                            else:
+                                w = True
+                            (writers if w else readers).add(f.key)
+                    else:
+                        readers.add(f.key)
+            outside = sorted(fns[k].sname for k in readers if k not in once)
+            ok = not writers or not writers <= once or not outside
+            chk.ob("R19.7", "%s::%s" % (m.unit, g["name"]), "a thread-local object set up under sodium_init() is not relied on by other threads", ok,
+                   detail="" if ok else "thread-local `%s` is written only by %s (run once, in the initialising thread) and read by %s: every "
+                   "other thread sees it zero-initialised" % (g["name"], sorted(fns[k].sname for k in writers), outside[:4]),
+                   key="R19.7 %s" % g["name"])
+    chk.floor("R19.7", "thread-local objects examined", n, 1)
